@@ -381,6 +381,25 @@ func registerHarness(e *Engine) {
 		return succ
 	}
 	e.Intr["harness.vfRecorded"] = func(c *Call) []*State { return c.Return(Slice{}) }
+	// vfCrashable(f) bool: runs f with every mutating file-system operation as a crash
+	// point (at most one crash); returns true when the process was killed inside f.
+	e.Intr["harness.vfCrashable"] = func(c *Call) []*State {
+		gk := fmt.Sprintf("crashable:%d:%d", c.Th.ID, len(c.Th.Frames))
+		if _, started := c.St.Ghost[gk]; started {
+			delete(c.St.Ghost, gk)
+			_, crashed := c.St.Ghost["crash:happened"]
+			delete(c.St.Ghost, "crash:happened")
+			delete(c.St.Ghost, "crash:armed")
+			return c.Return(BoolC(crashed))
+		}
+		c.St.Ghost[gk] = True
+		c.St.Ghost["crash:armed"] = BVC(uint64(len(c.Th.Frames)), 64)
+		c.Retry()
+		if succ := c.E.invoke(c.St, c.Th, c.Args[0].(*Closure), nil, nil, c.Instr, false); succ != nil {
+			panic(unsupported("vfCrashable: body is a forking intrinsic"))
+		}
+		return nil
+	}
 	e.Intr["harness.vfNative"] = func(c *Call) []*State { return c.Return(False) }
 	e.Intr["harness.vfSetUnwind"] = func(c *Call) []*State { return c.Return(nil) }
 	e.Intr["harness.vfGhostSet"] = func(c *Call) []*State {
